@@ -298,7 +298,7 @@ def main(tier, replay=None):
     for p in corpus:
         run_params(p, rep)
     nshards = 16 if tier == "thorough" else 8
-    total = 16 * 1000 if tier == "thorough" else 400
+    total = 16 * 5000 if tier == "thorough" else 400
     for part in engine.run_shards(_shard, nshards, common.verif_seed(), tier=tier, n_cases=total // nshards):
         rep.merge(part)
     return rep.finish()
